@@ -140,9 +140,10 @@ def record(prop, known, can_reports, can_incidents):
             data = json.load(f)
     entries = {}
     bad = 0
-    for r in can_reports.values():
-        for v in r["violations"]:
-            hit = next((f for f in known["findings"] if matches_signature(v, f, prop)), None)
+    allv = [v for r in can_reports.values() for v in r["violations"]]
+    attributed = attribute(prop, known, allv)
+    for v, (hit, _how) in zip(allv, attributed):
+        if True:
             if hit:
                 entries[canary_key(v)] = {"key": canary_key(v), "finding": hit["id"], "kind": v["kind"], "pattern": (v.get("original_case") or v["case"]).get("pattern"), "minimised": v["case"].get("pattern")}
             else:
@@ -184,6 +185,89 @@ def matches_signature(v, finding, prop):
         if sub not in v.get(k, ""):
             return False
     return True
+
+
+def ablation_replay(prop, items):
+    """items: list of (violation, mask). Re-check each minimised witness with the ablation switches
+    of the mask on (hook H5), in parallel batches. Returns one of 'gone', 'other', 'same',
+    'inconclusive' per item. A batch process that dies or exceeds its time budget leaves its
+    unanswered items 'inconclusive' (never a verdict)."""
+    if not items:
+        return []
+    os.makedirs(LOGS, exist_ok=True)
+    nproc = min(16, max(1, len(items) // 8 + 1))
+    chunks = [items[i::nproc] for i in range(nproc)]
+    procs = []
+    for ci, chunk in enumerate(chunks):
+        fin = os.path.join(LOGS, "ablate-%s-%d-%d.in" % (prop, os.getpid(), ci))
+        fout = os.path.join(LOGS, "ablate-%s-%d-%d.out" % (prop, os.getpid(), ci))
+        with open(fin, "w") as f:
+            for v, mask in chunk:
+                f.write(json.dumps({"case": v["case"], "kind": v["kind"], "observed": v.get("observed", ""), "mask": mask}) + "\n")
+        if os.path.exists(fout):
+            os.unlink(fout)
+        p = subprocess.Popen([RXV, "ablate", "--prop", prop, "--file", fin, "--out", fout, "--fuel", "20000000"], stdout=subprocess.DEVNULL, stderr=subprocess.DEVNULL, env=dict(ENV, RXV_REPO=REPO))
+        procs.append((p, fin, fout, len(chunk)))
+    results = [None] * len(items)
+    deadline = time.time() + 60 + 2 * max(len(c) for c in chunks)
+    for ci, (p, fin, fout, n) in enumerate(procs):
+        try:
+            p.wait(timeout=max(1, deadline - time.time()))
+        except subprocess.TimeoutExpired:
+            p.kill()
+            p.wait()
+        lines = []
+        try:
+            with open(fout) as f:
+                lines = [l.strip() for l in f if l.strip()]
+        except Exception:
+            pass
+        for k in range(n):
+            results[ci + k * nproc] = lines[k] if k < len(lines) and lines[k] in ("gone", "other", "same", "inconclusive") else "inconclusive"
+        for path in (fin, fout):
+            try:
+                os.unlink(path)
+            except Exception:
+                pass
+    return results
+
+
+def attribute(prop, known, violations):
+    """Attribute minimised witnesses to open findings. A finding explains a witness if its structural
+    signature matches and - when the finding names an ablation mask - the witness stops failing in
+    that way once the mechanism the finding blames is switched off. Findings are tried in file
+    order; the first one that explains the witness wins. Returns (finding or None, how) per witness,
+    how in {'signature', 'ablation', 'ablation_inconclusive'}."""
+    cands = []
+    for v in violations:
+        cands.append([f for f in known["findings"] if matches_signature(v, f, prop)])
+    out = [None] * len(violations)
+    pos = [0] * len(violations)
+    while True:
+        batch = []
+        for i, v in enumerate(violations):
+            if out[i] is not None:
+                continue
+            while pos[i] < len(cands[i]):
+                f = cands[i][pos[i]]
+                if not f.get("ablation"):
+                    out[i] = (f, "signature")
+                    break
+                batch.append((i, f))
+                break
+            else:
+                out[i] = (None, "none")
+        if not batch:
+            break
+        res = ablation_replay(prop, [(violations[i], f["ablation"]) for i, f in batch])
+        for (i, f), r in zip(batch, res):
+            if r in ("gone", "other"):
+                out[i] = (f, "ablation")
+            elif r == "inconclusive":
+                out[i] = (f, "ablation_inconclusive")
+            else:
+                pos[i] += 1
+    return out
 
 
 def cpu_seconds(pid):
@@ -626,6 +710,8 @@ def check(prop, tier, seed, record_canaries=False):
     seen_min = set()
     canary_known = load_canaries().get(prop, {})
     canary_listed_seen = 0
+    seeded_witnesses = []
+    attribution_how = {}
     for v in violations:
         key = (v["kind"], json.dumps(v["case"], sort_keys=True))
         if key in seen_min:
@@ -640,11 +726,16 @@ def check(prop, tier, seed, record_canaries=False):
                 canary_listed_seen += 1
             else:
                 v = dict(v, canary=True)
+            if hit:
+                known_hits.setdefault(hit["id"], {"finding": hit, "count": 0, "example": v})
+                known_hits[hit["id"]]["count"] += 1
+            else:
+                unknown.append(v)
         else:
-            for f in known["findings"]:
-                if matches_signature(v, f, prop):
-                    hit = f
-                    break
+            seeded_witnesses.append(v)
+    # seeded phase: structural signature, confirmed by switching off the blamed mechanism (hook H5)
+    for v, (hit, how) in zip(seeded_witnesses, attribute(prop, known, seeded_witnesses)):
+        attribution_how[how] = attribution_how.get(how, 0) + 1
         if hit:
             known_hits.setdefault(hit["id"], {"finding": hit, "count": 0, "example": v})
             known_hits[hit["id"]]["count"] += 1
@@ -693,6 +784,7 @@ def check(prop, tier, seed, record_canaries=False):
         "shards": len(reports),
         "truncated_by_time_cap": truncated,
         "known_findings_seen": {k: h["count"] for k, h in known_hits.items()},
+        "seeded_phase_attribution": dict(attribution_how, note="'ablation' = signature matched and the witness stopped failing with the blamed mechanism switched off (hook H5); 'signature' = the finding has no ablation switch; 'ablation_inconclusive' = the ablated re-run could not be judged (step limit), attributed on the signature alone; 'none' = reported as VIOLATION"),
         "canary_phase": {"seed": CANARY_SEED, "logical_shards": CANARY_SHARDS, "cases": sum(r["evaluations"] for r in can_reports.values()), "listed_known_failures": len(canary_known), "listed_known_failures_seen_again": canary_listed_seen, "attribution": "exact identity (kind, pattern, flags, dialect, replacement, aux)"},
         "unattributed_violations": len(unknown),
         "incidents": [{k: inc.get(k) for k in ("first", "solo", "detail")} for inc in incidents][:10],
